@@ -10,7 +10,20 @@
 //	Start / Pair     client/server pair with options and a clean teardown
 //	Tap / DecodeWire net.Conn wrapper that tees both directions of the client's
 //	                 connection; DecodeWire parses the captured bytes with an
-//	                 independent x/net/http2 Framer + hpack decoder.
+//	                 independent x/net/http2 Framer + hpack decoder
+//	                 (StreamIDs / HeadersOf / MessagesOf slice the result).
+//	RawClient        minimal scripted HTTP/2 client (own framer + hpack encoder)
+//	                 against the real server: Options.NoClient + Pair.DialRaw.
+//
+// Typical use (inside vk.Bubble):
+//
+//	pair, err := e2e.Start(e2e.Options{Unary: h, Stream: sh, Tap: &e2e.Tap{}})
+//	defer pair.Close()
+//	resp, err := pair.Unary(ctx, e2e.UnaryMethod, []byte("req"))
+//
+// Read server-side logs only after the RPC has completed (or after
+// pair.Close() + synctest.Wait()): goroutine scheduling in a bubble is not
+// deterministic.
 package e2e
 
 import (
